@@ -27,6 +27,12 @@ def extra_objects(rng):
     L += ["BEGIN:VEVENT", "UID:c10-rec", "DTSTAMP:20240101T000000Z", "RECURRENCE-ID:20240516T120000Z", "DTSTART:20240520T090000Z", "DURATION:PT2H", "SUMMARY:moved override", "LOCATION:Room 2", "END:VEVENT"]
     L += ["END:VCALENDAR"]
     out.append(("x-rec.ics", "VEVENT/override", ("\r\n".join(L) + "\r\n").encode()))
+    # (the other way round: the overridden instance first, the master - the only one with a DESCRIPTION - last)
+    L = ["BEGIN:VCALENDAR", "VERSION:2.0", "PRODID:-//vf//c10//EN"]
+    L += ["BEGIN:VEVENT", "UID:c10-rec2", "DTSTAMP:20240101T000000Z", "RECURRENCE-ID:20240517T120000Z", "DTSTART:20240521T090000Z", "DURATION:PT2H", "SUMMARY:early override", "END:VEVENT"]
+    L += ["BEGIN:VEVENT", "UID:c10-rec2", "DTSTAMP:20240101T000000Z", "DTSTART:20240515T120000Z", "DURATION:PT1H", "RRULE:FREQ=DAILY;COUNT=4", "SUMMARY:late master", "DESCRIPTION:only here", "END:VEVENT"]
+    L += ["END:VCALENDAR"]
+    out.append(("x-rec2.ics", "VEVENT/override-first", ("\r\n".join(L) + "\r\n").encode()))
     L = ["BEGIN:VCALENDAR", "VERSION:2.0", "PRODID:-//vf//c10//EN", "BEGIN:VTODO", "UID:c10-bare", "DTSTAMP:20240101T000000Z", "END:VTODO", "END:VCALENDAR"]
     out.append(("x-bare.ics", "VTODO/no-props", ("\r\n".join(L) + "\r\n").encode()))
     L = ["BEGIN:VCALENDAR", "VERSION:2.0", "PRODID:-//vf//c10//EN", "BEGIN:VEVENT", "UID:c10-two", "DTSTAMP:20240101T000000Z", "DTSTART:20240515T120000Z", "SUMMARY:first", "CATEGORIES:work,home",
@@ -53,6 +59,12 @@ def filter_pool(rng, n, objs_tr):
         else:
             flt, feats = c11.gen_filter(rng)
             pool.append((flt, None, "filter/" + "+".join(sorted(set(f.split("/")[0] for f in feats)))))
+    # one positive condition that only the second VEVENT of an object with an overridden instance satisfies
+    for pf in ({"type": "prop", "name": "LOCATION"}, {"type": "prop", "name": "SUMMARY", "text_match": {"text": "moved override", "collation": None, "negate": False}},
+               {"type": "prop", "name": "LOCATION", "text_match": {"text": "Room 2", "collation": None, "negate": False}}, {"type": "prop", "name": "DESCRIPTION"},
+               {"type": "prop", "name": "SUMMARY", "text_match": {"text": "late master", "collation": None, "negate": False}}):
+        if rng.random() < 0.6:
+            pool.append(({"type": "comp", "name": "VCALENDAR", "children": [{"type": "comp", "name": "VEVENT", "children": [pf]}]}, None, "filter/one-positive-condition-met-by-a-later-component"))
     # filters that extend another pool filter: same first key group, further keys (a second
     # prop-filter or a time-range in the same component)
     import copy
@@ -82,6 +94,9 @@ def mechanism(name, body, shape, filter_xml):
     timey = "time-range" in shape or "time-range" in filter_xml
     multi = max(body.count(b"BEGIN:" + c) for c in (b"VEVENT", b"VTODO", b"VJOURNAL")) > 1 or (body.count(b"BEGIN:VEVENT") + body.count(b"BEGIN:VTODO") + body.count(b"BEGIN:VJOURNAL")) > 1
     if multi:
+        if filter_xml.count("<C:prop-filter") == 1 and filter_xml.count("<C:comp-filter") == 2 and not any(t in filter_xml for t in ("time-range", "is-not-defined", "negate-condition", "param-filter")):
+            # one positive condition: flattening the values of all components cannot change the answer
+            return "several-components-in-one-object/one-positive-condition"
         return "several-components-in-one-object/values-flattened"
     if timey and b";TZID=" in body:
         return "tzid-value-indexed-without-timezone"
